@@ -27,6 +27,7 @@ type Contract struct {
 	OkNonNil     []int  // result indexes that are non-nil whenever the callee's error result is nil
 	LenRes0      bool   // result 0 is len(argument 0) whenever the error result is nil ("fills the whole slice or fails")
 	Fresh        bool   // results are newly created objects: writing them does not write the arguments
+	ResultOf     []int  // the result wraps exactly these arguments: writing through it writes them and nothing else
 	ConcSafeRecv bool   // documented safe for concurrent use on a shared receiver, and does not change what the receiver denotes
 	Note         string
 }
@@ -91,6 +92,10 @@ var contracts = map[string]*Contract{
 	"bytes.TrimRight":                              {Det: true, Note: "result is a prefix of the argument: 0 <= len(result) <= len(arg)"},
 	"encoding/xml.NewDecoder":                      {Fresh: true, NonNil: []int{0}, Note: "decoder over the reader; Decode(v) on a fresh decoder is Unmarshal(all bytes, v)"},
 	"(*encoding/xml.Decoder).Decode":               {Writes: []int{1}, Note: "canonicalised to xml.Unmarshal when the reader's bytes are known"},
+	"encoding/base64.NewEncoder":                   {ResultOf: []int{1}, NonNil: []int{0}, Note: "streaming encoder over w: the Encoding is only read"},
+	"(io.WriteCloser).Write":                       {Writes: []int{0}, Note: "io.Writer: writes to the receiver, must not modify p"},
+	"(io.WriteCloser).Close":                       {Writes: []int{0}, Note: "flushes the receiver"},
+	"(io.Writer).Write":                            {Writes: []int{0}, Note: "io.Writer: writes to the receiver, must not modify p"},
 	"(*encoding/base64.Encoding).DecodedLen":       {Det: true, Note: "0 <= DecodedLen(n) <= n"},
 	"(*encoding/base64.Encoding).EncodedLen":       {Det: true, Note: "0 <= EncodedLen(n) <= 4*(n/3+1)"},
 	"(*encoding/base64.Encoding).Decode":           {Writes: []int{1}, Note: "canonicalised to DecodeString for a destination of exactly DecodedLen(len(src))"},
